@@ -4,7 +4,7 @@ META = {
 }
 
 B = 64
-FS = ["--max-field-sensitivity-array-size", "128"]
+FS = ["--max-field-sensitivity-array-size", "128", "--object-bits", "10"]
 
 def tagbytes(cfg):
     cs, b64 = cfg.get("FEAT_CSUM", 0), cfg.get("FEAT_64BIT", 0)
@@ -27,7 +27,7 @@ def uw(cfg, nmain=6):
     l += ["ref_walk.0:%d" % (walk + 1), "ref_parse_tags.0:%d" % (maxt + 2), "ref_parse_tags.1:%d" % (B // 2),
           "ref_load.0:%d" % (B + 1), "ref_load.1:%d" % (nj + 1),
           "ref_collect_revokes.0:%d" % (maxr + 1), "ref_collect_revokes.1:%d" % (maxr + 1),
-          "ref_collect_revokes.2:%d" % (B // 4), "ref_collect_revokes.3:%d" % (walk + 1),
+          "ref_collect_revokes.2:%d" % (maxr + 1), "ref_collect_revokes.3:%d" % (B // 4), "ref_collect_revokes.4:%d" % (walk + 1),
           "ref_revoked_by_table.0:%d" % (maxr + 1),
           "ref_replay.0:%d" % (B + 1), "ref_replay.1:%d" % (nfs + 1), "ref_replay.2:%d" % (maxt + 2),
           "ref_replay.3:%d" % (walk + 1),
@@ -37,6 +37,18 @@ def uw(cfg, nmain=6):
           "do_one_pass.19:%d" % (walk + 1), "do_one_pass.14:%d" % (maxt + 1), "count_tags.0:%d" % (maxt + 1),
           "calc_chksums.1:%d" % (maxt + 1), "scan_revoke_records.0:%d" % (maxrev + 1)]
     return l
+
+def rt_uw(nset, hs):
+    return ["stub_hash_64.0:%d" % (nset + 1), "main.0:%d" % (nset + 1), "main.1:%d" % (nset + 1), "find_revoke_record.0:%d" % (nset + 1),
+            "jbd2_journal_init_revoke_table.0:%d" % (hs + 1), "jbd2_journal_init_revoke_table.2:%d" % (hs + 1),
+            "jbd2_journal_clear_revoke.0:%d" % (nset + 1), "jbd2_journal_clear_revoke.1:%d" % (hs + 1),
+            "jbd2_journal_destroy_revoke_table.1:%d" % (hs + 1)]
+
+def rv_uw(maxr, hs):
+    return ["find_revoke_record.0:%d" % (maxr + 1),
+            "jbd2_journal_init_revoke_table.0:%d" % (hs + 1), "jbd2_journal_init_revoke_table.2:%d" % (hs + 1),
+            "jbd2_journal_clear_revoke.0:%d" % (maxr + 1), "jbd2_journal_clear_revoke.1:%d" % (hs + 1),
+            "jbd2_journal_destroy_revoke_table.1:%d" % (hs + 1)]
 
 def cfgs(base_list):
     out = []
@@ -53,10 +65,22 @@ HARNESSES = [
          unwind=3, cbmc_flags=FS,
          backends=["default", "kissat"],
          bound="journal of 6 blocks of 64 bytes, every byte symbolic; s_first, s_start, s_sequence symbolic; log walk <= 10 header blocks"),
+    dict(name="revoke_table", src="revoke_table.c",
+         funcs=["jbd2_journal_set_revoke", "jbd2_journal_test_revoke", "find_revoke_record", "insert_revoke_hash",
+                "jbd2_journal_clear_revoke", "jbd2_journal_init_revoke", "jbd2_journal_destroy_revoke"],
+         configs=[{"NSET": 3, "HASHSZ": 2, "_unwindset": rt_uw(3, 2)}],
+         unwind=3, cbmc_flags=FS,
+         backends=["default", "kissat"],
+         bound="3 set_revoke calls with arbitrary block/sequence, 2 hash buckets"),
     dict(name="revoke_pass", src="revoke_pass.c",
-         funcs=["do_one_pass", "scan_revoke_records", "jbd2_journal_set_revoke", "jbd2_journal_test_revoke",
-                "find_revoke_record", "insert_revoke_hash", "jbd2_journal_clear_revoke", "jbd2_journal_init_revoke"],
+         funcs=["do_one_pass", "scan_revoke_records", "count_tags", "jread"],
          configs=cfgs([{"FEAT_64BIT": 0, "FIRST": 1, "REF_MAXWALK": 4}]),
+         unwind=3, cbmc_flags=FS,
+         backends=["default", "kissat"],
+         bound=""),
+    dict(name="replay_pass", src="replay_pass.c",
+         funcs=["do_one_pass", "read_tag_block", "jread"],
+         configs=cfgs([{"FEAT_64BIT": 0, "FIRST": 1, "REF_MAXWALK": 4, "_unwindset": ["ref_revoked_in.0:3", "jbd2_journal_test_revoke.0:3"]}]),
          unwind=3, cbmc_flags=FS,
          backends=["default", "kissat"],
          bound=""),
